@@ -426,6 +426,11 @@ def render(c):
     if cls == "cdataBracket":
         L, k, via = v.split("/")
         return "xsl", cdata_case(int(L), CDATA_TAIL[int(k)], via), fl
+    if cls == "manyDecimalFormats":
+        # i named decimal formats with different symbol sets, each used twice (a processor may cache one formatter per set)
+        decl = "".join('<xsl:decimal-format name="f%d" decimal-separator="%s" grouping-separator="%s"/>' % (k, ",:!|^"[k % 5], "._ ~+"[(k // 5) % 5]) for k in range(i))
+        uses = "".join("<v><xsl:value-of select=\"format-number(1234.5, '#%s##0%s0', 'f%d')\"/></v>" % ("._ ~+"[(k // 5) % 5], ",:!|^"[k % 5], k) for k in list(range(i)) * 2)
+        return "xsl", sheet(uses, decl), fl
     if cls == "paramExpression":
         return "param", PARAM_EXPRS[i - 1].encode("utf-8"), fl
     if cls == "nonExpression":
